@@ -54,6 +54,8 @@ CROPS = {
     "K": ((4, 20), (9, 15), 0), "ZR": ((4, 10), (10, 15), 0), "LUP": ((4, 1), (8, 20), 0),
     "WW": ((10, 5), (8, 1), 1), "WG": ((9, 20), (7, 10), 1), "WR": ((9, 25), (7, 25), 1), "TR": ((9, 28), (7, 28), 1),
     "WRA": ((8, 25), (7, 20), 1),
+    # permanent crops: NOT claimed; only sown to exercise the parameter readers on a carried-over stand
+    "GR": ((3, 10), (6, 1), 0), "AA": ((3, 20), (6, 20), 0),
 }
 EARLY_CUT = "@early"
 EARLY_HARVEST = {"SM": (8, 10), "WR": (5, 25), "WW": (6, 10), "OA": (6, 25), "SW": (6, 25)}
@@ -151,7 +153,7 @@ def write_project(ex, name, rows, nlevel, rnd, autosow=False):
 # crop factor WUMAXPF/11 > 1 of the deep-rooting crops (WW 12, WRA 12, ZR 14, ZR chrnew 16) pushes
 # round(WURZMAX*WUMAXPF/11) above the number of layers and the clamp to N decides
 DEEP_CROPS = [("WW", ""), ("ZR", ""), ("WRA", ""), ("ZR", "chrnew")]
-CUSTOM_LAYERS = [5, 6, 8, 10, 12, 15, 18]
+CUSTOM_LAYERS = [5, 6, 8, 10, 12, 15, 18, 20]
 
 
 def custom_soil_ids():
@@ -306,6 +308,12 @@ def plan(ctx):
         # automatic sowing inside a window (temperature rule in April, latest date 31 May): a standing crop must not be sown again
         add([("SM", ""), ("SOY", rnd.choice(SOY_VARIETIES)), ("SM", "")], rnd.choice(["075", "160", "002"]), "historical", 1 + ctx.seed % 3,
             150, ctx.seed % 2 == 0, 1981 + rnd.randrange(0, 20), autosow=True)
+        # the same crop in consecutive rotation entries: an annual crop is established anew every time (both parameter formats),
+        # only a perennial stand is carried over
+        a1, a2 = rnd.sample(["SM", "WW", "SW", "WG", "K"], 2)
+        add([(a1, ""), (a1, ""), (a1, "")], rnd.choice(["075", "160", "002"]), "historical", 1 + ctx.seed % 3, 60, True, 1981 + rnd.randrange(0, 18))
+        add([(a2, ""), (a2, ""), (rnd.choice(["GR", "AA"]), ""), ("GR", ""), ("GR", "")], rnd.choice(["075", "160", "041"]), "historical",
+            1 + (ctx.seed + 1) % 3, 150, False, 1981 + rnd.randrange(0, 16))
         # a cut before maturity (silage / green cut) after crops that matured: no stage day of the predecessor may be reported
         add([(rnd.choice(["SW", "OA"]), ""), ("SM", EARLY_CUT), (rnd.choice(["SW", "OA", "LUP"]), ""), ("SM", EARLY_CUT)],
             rnd.choice(["075", "160", "002", "041"]), "historical", 1 + (ctx.seed + 1) % 3, 150, ctx.seed % 2 == 0, 1981 + rnd.randrange(0, 18))
@@ -317,8 +325,9 @@ def plan(ctx):
         # weather and fertiliser so that the root front reaches the bottom
         deep = DEEP_CROPS[:]
         rnd.shuffle(deep)
-        n1, n2 = rnd.choice([10, 12, 15]), rnd.choice([5, 6, 8, 18])
-        add([("WW", ""), ("ZR", rnd.choice(["", "chrnew"]))], "6%02d" % n1, "historical", 1 + ctx.seed % 3, 150, ctx.seed % 2 == 1,
+        n2 = rnd.choice([5, 6, 8, 10, 12, 15, 18])
+        # 20 layers with the root limit 20: the roots reach layer 20, where the root radius 0.020 - 0.001*i is exactly 0
+        add([("WW", ""), ("ZR", rnd.choice(["", "chrnew"]))], "620", "historical", 1 + ctx.seed % 3, 150, ctx.seed % 2 == 1,
             1981 + rnd.randrange(0, 20))
         add([deep[0], deep[1]], "%d%02d" % (6 + rnd.randrange(3), n2), rnd.choice(["historical", "extreme"]), 1 + (ctx.seed + 1) % 3, 60,
             ctx.seed % 2 == 0, 1981 + rnd.randrange(0, 20))
@@ -339,6 +348,13 @@ def plan(ctx):
         for j in range(6):
             add([("SM", ""), ("SOY", SOY_VARIETIES[j]), ("SM", ""), ("SOY", SOY_VARIETIES[j + 2])], SOILS_ALL[(3 * j) % len(SOILS_ALL)],
                 ["historical", "drought", "frost"][j % 3], 1 + j % 3, [150, 0][j % 2], j % 2 == 0, 1981 + rnd.randrange(0, 18), autosow=True)
+        for j, a in enumerate(["SM", "WW", "SW", "WG", "K", "ZR", "SOY", "WRA"]):
+            for yml_ in (True, False):
+                add([(a, ""), (a, ""), (a, "")], SOILS_ALL[(j + 2) % len(SOILS_ALL)], ["historical", "drought"][j % 2], 1 + j % 3, [60, 150][j % 2],
+                    yml_, 1981 + rnd.randrange(0, 16))
+        for j, pcrop in enumerate(["GR", "AA", "GR", "AA"]):
+            add([("SW", ""), (pcrop, ""), (pcrop, ""), (pcrop, "")], SOILS_ALL[(j + 5) % len(SOILS_ALL)], "historical", 1 + j % 3, 60, j % 2 == 0,
+                1981 + rnd.randrange(0, 16))
         for j in range(8):
             pre_ = ["SW", "OA", "LUP", "WG"][j % 4]
             cut = ["SM", "WR", "WW", "OA"][j % 4]
@@ -535,6 +551,18 @@ def correspond(ctx):
             seen.add((d["line"], d["zeit"]))
     c.nontrivial = len(seen)
     # the profile-depth clamp of the root limit must be exercised (deep-rooting crop, root limit at the profile depth)
+    if not c.dist.get("hit=root-layer-20"):
+        c.mismatches.append({"kind": "coverage", "what": "no traced day with roots in layer 20 (root radius 0)"})
+    seen_reader = {}
+    for r_ in rr:
+        for k, v in (r_.get("reader") or {}).items():
+            seen_reader[k] = seen_reader.get(k, 0) + v
+            c.bump("reader:" + k, v)
+    for need in ("perennial=false repeat=true yml=true", "perennial=false repeat=true yml=false"):
+        if not seen_reader.get(need):
+            c.mismatches.append({"kind": "coverage", "what": "no crop parameter read for the case " + need})
+    if not any(k.startswith("perennial=true repeat=true") for k in seen_reader):
+        c.mismatches.append({"kind": "coverage", "what": "no crop parameter read for a carried-over perennial stand"})
     if not c.dist.get("hit=root-clamp-N"):
         c.mismatches.append({"kind": "coverage", "what": "no traced day on which round(WURZMAX*WUMAXPF/11) > N and the roots reached layer N"})
     ctx.extra["traced_runs"] = [r_["tag"] for r_ in runs]
